@@ -41,7 +41,8 @@ def replay(cases):
         sigbase = rc.sig_graph({"g": g})
         for s in range(n):
             for t in range(n):
-                got = net.shortest_distance(s, t)
+                f = (s + 2 * t + len(g)) % 4            # id/id, Node/id, id/Node, Node/Node: all documented argument forms
+                got = net.shortest_distance(rc.arg(net, s, f & 1), rc.arg(net, t, f >> 1))
                 ncalls += 1
                 if got != exp(s, t):
                     viol.append(("pair/" + sigbase, "shortest_distance(%d,%d) = %r on %s, specification %r" % (s, t, got, g, exp(s, t)), c))
@@ -61,7 +62,8 @@ def replay(cases):
         net3.prepare(verbose=False)
         for s in range(n):
             for t in range(n):
-                got = net3.prepared_shortest_distance(s, t)
+                f = (2 * s + t + len(g)) % 4
+                got = net3.prepared_shortest_distance(rc.arg(net3, s, f & 1), rc.arg(net3, t, f >> 1))
                 ncalls += 1
                 want = 1e300 if d[s][t] >= 1000000 else d[s][t]
                 if got != want:
@@ -75,7 +77,9 @@ def replay(cases):
             ncalls += 1
             for s in range(n):
                 for t in range(n):
-                    has, got = bool(net4.has_prepared_shortest_distance(s, t)), net4.prepared_shortest_distance(s, t)
+                    f = (s + t + cut) % 4
+                    has = bool(net4.has_prepared_shortest_distance(rc.arg(net4, s, f & 1), rc.arg(net4, t, f >> 1)))
+                    got = net4.prepared_shortest_distance(rc.arg(net4, s, f >> 1), rc.arg(net4, t, f & 1))
                     within = d[s][t] <= cut
                     if has != within or got != (d[s][t] if within else 1e300):
                         viol.append(("prepared-cut/" + sigbase, "after prepare(cut=%s): has_prepared(%d,%d) = %r, prepared_shortest_distance = %r on %s, specification distance %r"
